@@ -121,4 +121,44 @@ sub = Contract(
     loops={'0': LoopSpec(_sub_inv0), '1': LoopSpec(_sub_inv1)})
 
 
-CONTRACTS = [neg, add, sub]
+# ---------------------------------------------------------------- _lshift / _rshift (multiplication / division by X^n), _from_list (normalisation, in place)
+def _an_params(vc, P):
+    a = VList(z3.Const('a', ARR), z3.Int('len_a'))
+    return dict(cls=_cls(), a=vc.alloc(P, a), n=z3.Int('n'), __a=a)
+
+
+def _a_unchanged(A, E):
+    now = E.P.heap[A.P.env['a'].id]; was = A['__a']
+    return And(now.n == was.n, same(now, was, was.n))
+
+
+lshift = Contract(
+    'mpyc.gfpx.Polynomial._lshift', _an_params,
+    requires=lambda A: And(p > 1, rep(A['__a']), A['n'] >= 0),
+    ensures=lambda A, res, E: And(res.n == If(A['__a'].n == 0, 0, A['__a'].n + A['n']), _a_unchanged(A, E),
+                                  z3.ForAll([j_], Implies(And(0 <= j_, j_ < res.n), res.arr[j_] == If(j_ < A['n'], 0, A['__a'].arr[j_ - A['n']]))),
+                                  rep(res)))
+
+rshift = Contract(
+    'mpyc.gfpx.Polynomial._rshift', _an_params,
+    requires=lambda A: And(p > 1, rep(A['__a']), A['n'] >= 0),
+    ensures=lambda A, res, E: And(res.n == If(A['__a'].n >= A['n'], A['__a'].n - A['n'], 0), _a_unchanged(A, E),
+                                  z3.ForAll([j_], Implies(And(0 <= j_, j_ < res.n), res.arr[j_] == A['__a'].arr[j_ + A['n']])),
+                                  rep(res)))
+
+
+def _fl_params(vc, P):
+    a = VList(z3.Const('a', ARR), z3.Int('len_a'))
+    return dict(a=vc.alloc(P, a), __a=a)
+
+
+from_list = Contract(
+    'mpyc.gfpx.Polynomial._from_list', _fl_params,
+    requires=lambda A: And(A['__a'].n >= 0),
+    # "NB: no copy": the result IS the argument object, cut back to its last nonzero entry; entries kept, everything cut was zero
+    ensures=lambda A, res, E: And(E.P.env['__result_raw'] is A.P.env['a'], 0 <= res.n, res.n <= A['__a'].n, normal(res), same(res, A['__a'], res.n),
+                                  z3.ForAll([j_], Implies(And(res.n <= j_, j_ < A['__a'].n), A['__a'].arr[j_] == 0))),
+    loops={'0': LoopSpec(lambda A, E: And(0 <= E['a'].n, E['a'].n <= A['__a'].n, same(E['a'], A['__a'], E['a'].n),
+                                          z3.ForAll([j_], Implies(And(E['a'].n <= j_, j_ < A['__a'].n), A['__a'].arr[j_] == 0))))})
+
+CONTRACTS = [neg, add, sub, lshift, rshift, from_list]
